@@ -88,3 +88,13 @@ MUTANTS += [
     ("c03_factor_two", "C03", "solver.py", "dz[i] * (0.5 / Kz[i] + 0.5 / Kz[i + 1])", "dz[i] * (1.0 / Kz[i] + 1.0 / Kz[i + 1])"),
     ("c03_halo_px_from_dy", "C03", "solver.py", "    px = int(halo / dx)\n", "    px = int(halo / dy)\n"),
 ]
+
+MUTANTS += [
+    # ---- C04
+    ("c04_normalise_by_max", "C04", "solver.py", "    q0 = srf_flx\n", "    q0 = srf_flx / (np.max(np.abs(srf_flx)) or 1.0) if not footprint else srf_flx\n"),
+    ("c04_bg_in_flux_mean", "C04", "solver.py", "    tfftq[:, 0, 0] = tfftq0[0, 0]  # conservation by design\n", "    tfftq[:, 0, 0] = tfftq0[0, 0] + 1e-6 * p000  # conservation by design\n"),
+    ("c04_source_dependent_branch", "C04", "solver.py", "    if analytic:\n\n        # constant profiles solution", "    if analytic or (not footprint and q0.max() <= 0):\n\n        # constant profiles solution"),
+    ("c04_bg_every_mode", "C04", "solver.py", "        tfftp[:, msk] = alpha * tfftpm1 + tfftpm2\n", "        tfftp[:, msk] = alpha * tfftpm1 + tfftpm2 + 1e-3 * p000 / nlx / nly\n"),
+    ("c04_footprint_reads_source", "C04", "solver.py", "        tfftq0 = np.ones((nly, nlx), dtype=np.complex128) / nxe / nye\n", "        tfftq0 = np.ones((nly, nlx), dtype=np.complex128) / nxe / nye * (1.0 + 0.0 * q0.flat[0])\n"),
+    ("c04_clip_negative_source", "C04", "solver.py", "        fftq0 = fft2(q0, norm=\"forward\")  # fft of source\n", "        fftq0 = fft2(np.where(q0 < -500.0, -500.0, q0), norm=\"forward\")  # fft of source\n"),
+]
